@@ -15,7 +15,8 @@ RULE = ('virtual clock; timeouts in {1,2,7,200,1000,1001,9999,10000} ms; (rx) st
         'frame (wftmax>0), idle passes inside: exactly one FlowControlTimeoutError and a failed request iff the gap > T; (idle) receptions '
         'and transmissions ended by completion, interruption, overflow, wrong sequence number, invalid frame, stop_receiving / '
         'stop_sending followed by silence of 3T with idle passes: no timeout error. Plus the exhaustive ms->ns conversion table 0..20000 ms '
-        'evaluated inside Coq (PrimFloat, vm_compute) against the Python expression the harness uses. All cases replayed on the model.')
+        'evaluated inside Coq (PrimFloat, vm_compute) against the Python expression the harness uses. All cases replayed on the model.'
+        ' (tx, after_max_waits) the whole wftmax budget of Wait frames is used up in time, then the deadline passes: exactly one FlowControlTimeoutError whatever arrives afterwards. (blocking_rx) rxfn advances the virtual clock before handing over a Consecutive Frame (blocking read): the deadline is judged at hand-over; the model sees tick-then-process.')
 ASSUME = ['deadlines are measured at processing instants of the virtual clock (the latency inside one process() call is runtime)']
 
 TIMEOUTS = [1, 2, 7, 200, 1000, 1001, 9999, 10000]
